@@ -19,7 +19,7 @@ for f in sorted(glob.glob(os.path.join(HERE, "seeded", "*", "meta.json"))):
 out.append(f"### 13.2 Independently seeded changes ({len(metas)} kept)\n")
 out.append("Columns: the checks that reported a violation against the patched tree at the quick tier")
 out.append("(numbers = check ids without the C; bold = the check of the property the change was written")
-out.append("against; · = silent; – = not run for this change: the last changes of round 4 and those of rounds 5 and 6 were evaluated")
+out.append("against; · = silent; – = not run for this change: the last changes of round 4 and those of rounds 5, 6 and 7 were evaluated")
 out.append("against their own check and the most sensitive neighbours only, for lack of machine time).\n")
 out.append("| change | breaks | caught by (" + " ".join(i[1:] for i in IDS) + ") | needs |")
 out.append("|---|---|---|---|")
